@@ -5,7 +5,10 @@ import (
 	"crypto/sha256"
 	"encoding/hex"
 	"fmt"
+	"io"
+	"math"
 	"os"
+	"reflect"
 	"runtime"
 	"sort"
 	"sync"
@@ -40,7 +43,7 @@ type Case struct {
 	Rounds     int            `json:"rounds"` // every goroutine repeats its job this many times
 }
 
-var jobKinds = []string{"write", "read-rows", "read-rows", "read-pages", "read-index", "read-bloom", "column-writers", "rowgroups", "buffer-sort", "async-seek", "schema-of"}
+var jobKinds = []string{"read-any", "reconstruct", "write", "read-rows", "read-rows", "read-pages", "read-index", "read-bloom", "column-writers", "rowgroups", "buffer-sort", "async-seek", "schema-of"}
 
 func genCase(t *rapid.T) Case {
 	var c Case
@@ -59,13 +62,34 @@ func genCase(t *rapid.T) Case {
 		c.Opts.Bloom = append(c.Opts.Bloom, gen.BloomCol{Col: i, Bits: 10})
 	}
 	n := rapid.IntRange(3, 10).Draw(t, "njobs")
+	toAny := anyReadable(&c.Schema)
 	for i := 0; i < n; i++ {
-		c.Jobs = append(c.Jobs, Job{Kind: jobKinds[rapid.IntRange(0, len(jobKinds)-1).Draw(t, "jk")], Seed: rapid.IntRange(0, 1000).Draw(t, "js"), N: rapid.IntRange(1, 64).Draw(t, "jn")})
+		j := Job{Kind: jobKinds[rapid.IntRange(0, len(jobKinds)-1).Draw(t, "jk")], Seed: rapid.IntRange(0, 1000).Draw(t, "js"), N: rapid.IntRange(1, 64).Draw(t, "jn")}
+		if !toAny && (j.Kind == "read-any" || j.Kind == "reconstruct") {
+			j.Kind = "read-rows"
+		}
+		c.Jobs = append(c.Jobs, j)
 	}
 	c.Procs = []int{1, 2, 4, 16}[rapid.IntRange(0, 3).Draw(t, "procs")]
 	c.Goroutines = []int{2, 4, 8, 16}[rapid.IntRange(0, 3).Draw(t, "g")]
 	c.Rounds = rapid.IntRange(1, 4).Draw(t, "rounds")
 	return c
+}
+
+// anyReadable reports whether rows of the schema can be materialised as `any`:
+// the library reads MAP columns into map[string]any, which only works for
+// string keys (other key types panic or are converted rune-wise; reading into
+// `any` is not a documented mapping, so those schemas get other reader jobs).
+func anyReadable(n *ref.Node) bool {
+	if n.Kind == "map" && n.Children[0].Leaf != "string" {
+		return false
+	}
+	for i := range n.Children {
+		if !anyReadable(&n.Children[i]) {
+			return false
+		}
+	}
+	return true
 }
 
 type world struct {
@@ -98,6 +122,66 @@ func rowsDigest(rows []parquet.Row) string {
 		}
 	}
 	return hex.EncodeToString(h.Sum(nil)[:8])
+}
+
+// canon writes a value tree deterministically: pointers are followed, map keys sorted.
+func canon(w io.Writer, v reflect.Value) {
+	if !v.IsValid() {
+		io.WriteString(w, "nil|")
+		return
+	}
+	switch v.Kind() {
+	case reflect.Interface, reflect.Pointer:
+		if v.IsNil() {
+			io.WriteString(w, "nil|")
+			return
+		}
+		canon(w, v.Elem())
+	case reflect.Map:
+		keys := v.MapKeys()
+		ks := make([]string, len(keys))
+		for i, k := range keys {
+			var b bytes.Buffer
+			canon(&b, k)
+			ks[i] = b.String()
+		}
+		idx := make([]int, len(keys))
+		for i := range idx {
+			idx[i] = i
+		}
+		sort.Slice(idx, func(a, b int) bool { return ks[idx[a]] < ks[idx[b]] })
+		io.WriteString(w, "map{")
+		for _, i := range idx {
+			io.WriteString(w, ks[i])
+			io.WriteString(w, ":")
+			canon(w, v.MapIndex(keys[i]))
+		}
+		io.WriteString(w, "}")
+	case reflect.Slice, reflect.Array:
+		if v.Kind() == reflect.Slice && v.Type().Elem().Kind() == reflect.Uint8 {
+			fmt.Fprintf(w, "%x|", v.Bytes())
+			return
+		}
+		io.WriteString(w, "[")
+		for i := 0; i < v.Len(); i++ {
+			canon(w, v.Index(i))
+		}
+		io.WriteString(w, "]")
+	case reflect.Struct:
+		io.WriteString(w, "{")
+		for i := 0; i < v.NumField(); i++ {
+			if v.Type().Field(i).IsExported() {
+				canon(w, v.Field(i))
+			} else {
+				fmt.Fprintf(w, "%v|", v.Field(i))
+			}
+		}
+		io.WriteString(w, "}")
+	case reflect.Float32, reflect.Float64:
+		fmt.Fprintf(w, "%x|", math.Float64bits(v.Float()))
+	default:
+		fmt.Fprintf(w, "%v|", v.Interface())
+	}
 }
 
 // run executes one job and returns a digest of its observable result.
@@ -302,6 +386,41 @@ func (w *world) run(j Job) (string, error) {
 			return "", err
 		}
 		return rowsDigest(rows), nil
+	case "read-any":
+		// rows materialised as Go maps through the File's shared Schema (reconstruct functions are built once per Schema)
+		r := parquet.NewGenericReader[any](w.file)
+		defer r.Close()
+		if err := r.SeekToRow(int64(j.Seed) % (w.file.NumRows() + 1) / 2); err != nil {
+			return "", err
+		}
+		h := sha256.New()
+		buf := make([]any, 1+j.N%17)
+		for total := 0; total < 200; {
+			n, err := r.Read(buf)
+			for _, v := range buf[:n] {
+				canon(h, reflect.ValueOf(v))
+			}
+			total += n
+			if err != nil {
+				if err == io.EOF {
+					break
+				}
+				return "", err
+			}
+		}
+		return hex.EncodeToString(h.Sum(nil)[:8]), nil
+	case "reconstruct":
+		// the shared Schema value used directly: Reconstruct into maps
+		h := sha256.New()
+		lo := j.Seed % len(w.prows)
+		for _, row := range w.prows[lo:min(len(w.prows), lo+j.N)] {
+			var m any
+			if err := w.schema.Reconstruct(&m, row); err != nil {
+				return "", err
+			}
+			canon(h, reflect.ValueOf(m))
+		}
+		return hex.EncodeToString(h.Sum(nil)[:8]), nil
 	case "schema-of":
 		// shared Schema value: Lookup / Comparator / Deconstruct use lazily built state
 		s := w.schema
